@@ -58,6 +58,8 @@ fam("cubic", 1, 1, lambda k: [k[0] ** 3 - 2.0 * k[0] + 2.0], [-1.769292354238631
 fam("atan", 1, 1, lambda k: [math.atan(k[0])], [0.0])                                               # Newton overshoots for |x| > 1.39
 fam("bump", 2, 2, lambda k: [math.atan(k[0]) + 0.1 * k[1], k[1] ** 3 - 2.0 * k[1] + 2.0 + 0.1 * k[0]], [0.0, 0.0], [0.0, 0.0])
 fam("posq", 2, 2, lambda k: [k[0] * k[0] + 1.0, k[1] * k[1] + 2.0 + 0.5 * k[0]], [1.5, 0.5])     # strictly positive outputs (optimize_log)
+# flat at the start, exploding along the Newton direction: every sub-step of the first Newton step is worse than the start
+fam("cliff", 1, 2, lambda k: [5.0 + 4e6 * k[0] * k[0], 0.02 - k[0]], [0.0], [0.0, 0.0])
 fam("ident2", 2, 2, lambda k: [k[0], k[1]], [-10.0, -10.0])
 fam("ident3", 3, 3, lambda k: [k[0], k[1], k[2]], [8.0, -6.0, 3.0])
 
